@@ -133,6 +133,7 @@ func Run(ctx context.Context, args []string) int {
 		err = yaml.Unmarshal(bytes, &cfg)
 		if err != nil {
 			cliCtx.Errorf("invalid YAML in configuration file '%s': %v", cfg.Config.Name(), err)
+			return 1
 		}
 	}
 
@@ -140,6 +141,7 @@ func Run(ctx context.Context, args []string) int {
 	if len(cfg.AstraBundle) > 0 {
 		if bundle, err := astra.LoadBundleZipFromPath(cfg.AstraBundle); err != nil {
 			cliCtx.Errorf("unable to open bundle %s from file: %v", cfg.AstraBundle, err)
+			return 1
 		} else {
 			resolver = astra.NewResolver(bundle, cfg.AstraTimeout)
 		}
